@@ -44,6 +44,20 @@ class Runaway(AdvError):
     hang the check; the oracle reports the call count)."""
 
 
+def _exc_classes():
+    """Classes a raising callback may use: a changed loop that swallows / retries / does not count only SOME exception
+    classes (`except ValueError: continue`, `except (TimeoutError, ConnectionError): retry`) must meet them.  Every class
+    takes one message argument and shows it in str()."""
+    import json
+
+    class JsonErr(json.JSONDecodeError):
+        def __init__(self, msg):
+            super().__init__(msg, "{", 0)
+    return [AdvError, ValueError, KeyError, TypeError, RuntimeError, TimeoutError, AttributeError, AssertionError,
+            ConnectionError, OSError, NotImplementedError, LookupError, ArithmeticError, IndexError, JsonErr,
+            PermissionError, EOFError, UnicodeError, BufferError, ZeroDivisionError]
+
+
 CAP = 64          # adversary calls of one kind per loop run; the largest budget generated is 11
 
 
@@ -169,6 +183,7 @@ class C18(Prop):
         self.Chaperone = Chaperone
         self.LLMResponse = LLMResponse
         from operon_ai.providers import base as pb
+        self.EXC = _exc_classes()
         self.LIB_ERR = {"u": pb.ProviderUnavailableError, "q": pb.QuotaExhaustedError,
                         "t": pb.TranscriptionFailedError, "e": pb.NucleusError}
         # nothing may stall: the nucleus module's `time` is replaced by a recorder (sleep returns at once)
@@ -194,6 +209,23 @@ class C18(Prop):
         from ..extract import eval_loops
         from operon_ai import providers
         return eval_loops.run(core.LEAN, core.write_if_changed, self.cl, self.rs, self.nu, providers)
+
+    # --- the adversary's own exceptions -----------------------------------------------------------------------------
+    own = ()
+    exc_salt = 0
+
+    def adv_exc(self, what):
+        """the exception a scripted callback raises: for half of the lines always AdvError, otherwise its class rotates
+        through _exc_classes() (start chosen by the line's text, so a replay raises the same classes); it is the
+        adversary's own by IDENTITY, whatever its class"""
+        classes = self.EXC
+        k = 0 if self.exc_salt % 2 == 0 else (self.exc_salt // 2 + len(self.own)) % len(classes)
+        e = classes[k](what)
+        self.own.append(e)
+        return e
+
+    def is_own(self, exc):
+        return isinstance(exc, AdvError) or any(exc is e for e in self.own)
 
     # --- generation --------------------------------------------------------------------------------------------
     LIMS = [0, 0, 1, 1, 2, 2, 3, 3, 4, 4, 5, 6, -1, -3]
@@ -501,7 +533,7 @@ class C18(Prop):
         if item == "P":
             return f"Previous output was invalid. Error: <{i + 600}>\nYour output was: <{i}>"
         if item == "x":
-            raise AdvError("generator")
+            raise self.adv_exc("generator")
         return f"garbage <{i}>"
 
     def _fold_stub(self, item, j, raw):
@@ -509,7 +541,7 @@ class C18(Prop):
              "B": (True, 2.0, None), "T": (True, 0.7, f"stale <{j + 100}>"), "I": (False, 0.0, f"err <{j + 100}>"),
              "W": (False, 1.0, f"err <{j + 100}> <{j + 300}>"), "N": (False, 0.0, None), "E": (False, 0.0, "")}
         if item == "X":
-            raise AdvError("validator")
+            raise self.adv_exc("validator")
         if item in t:
             v, c, tr = t[item]
             return StubFold(v, c, tr, j, raw)
@@ -641,7 +673,8 @@ class C18(Prop):
         info = {"kind": "heal", "mr": max(in_force), "mr_entry": in_force[0], "calls": calls, "res": res, "exc": exc,
                 "real": real, "echo": "e" in gs, "stale": list(box["stale"])}
         if exc is not None:
-            if isinstance(exc, AdvError):
+            if self.is_own(exc):
+                info["exc"] = None
                 return f"raise calls={cs}", info
             return f"raise:{type(exc).__name__} calls={cs}", info
         if res.folded is None:
@@ -743,7 +776,7 @@ class C18(Prop):
                 self.spawn += 1
                 self.stepi = 0
                 if item == "x":
-                    raise AdvError("factory")
+                    raise prop.adv_exc("factory")
                 if item == "r" and not first:
                     w = self.last
                 elif item == "S":      # the library's own SimpleWorker around the scripted step (it records its memory itself)
@@ -775,7 +808,7 @@ class C18(Prop):
                 if item == "x":
                     rec["steps"].append(None)
                     rec["raised"] = True
-                    raise AdvError("step")
+                    raise prop.adv_exc("step")
                 if item in STEP_OUT:
                     out = STEP_OUT[item]
                 else:
@@ -798,7 +831,7 @@ class C18(Prop):
                 self.summ += 1
                 if item == "x":
                     rec["summ"] = "x"
-                    raise AdvError("summarizer")
+                    raise prop.adv_exc("summarizer")
                 if item == "D":        # the library's own default summarizer on the worker's real memory
                     h = prop.rs.create_default_summarizer()(mem)
                     rec["summ"] = ".".join(hint_tok(x) for x in h) or "-"
@@ -834,7 +867,9 @@ class C18(Prop):
                 "stale": list(box["stale"]), "mreg_seen": list(adv.mreg), "ms_seen": list(adv.ms)}
         st["cfg"] = (adv.mreg[-1], adv.ms[-1])        # what the callbacks assigned stays assigned
         if exc is not None:
-            r = "raise" if isinstance(exc, AdvError) else f"raise:{type(exc).__name__}"
+            r = "raise" if self.is_own(exc) else f"raise:{type(exc).__name__}"
+            if self.is_own(exc):
+                info["exc"] = None
         else:
             out = "none" if res.output is None else hexs(res.output)
             fin = "none" if res.final_worker_id is None else dig(res.final_worker_id)
@@ -899,7 +934,9 @@ class C18(Prop):
         LIB = self.LIB_ERR
 
         def boom(item, what):
-            e = LIB[item](what) if item in LIB else AdvError(what)
+            if item not in LIB:
+                return self.adv_exc(what)
+            e = LIB[item](what)
             own.append(e)
             return e
 
@@ -1011,7 +1048,8 @@ class C18(Prop):
             cnt["e"] += 1
             item = pick(ts, e, "o")
             if item in "xufg":
-                raise (self.LIB_ERR["u"] if item == "u" else AdvError)("" if item == "g" else f"<{100 + e}>")
+                msg = "" if item == "g" else f"<{100 + e}>"
+                raise self.LIB_ERR["u"](msg) if item == "u" else self.adv_exc(msg)
             return tool_out(item, e)
         if real_mito:
             mito = RecMito(silent=True)
@@ -1035,7 +1073,7 @@ class C18(Prop):
             exc = e
         log = "[" + ",".join(f"{view(x.prompt)}:{getattr(x.response, 'rid', '?')}" for x in nuc.transcription_log) + "]"
         es = "[" + ",".join(f"{k}{a}:{b}" for (k, a, b) in evs) + "]"
-        mine = exc is not None and (isinstance(exc, AdvError) or any(exc is e for e in own))
+        mine = exc is not None and (self.is_own(exc) or any(exc is e for e in own))
         info = {"kind": "tools", "mi": mi, "evs": evs, "res": res, "exc": None if mine else exc, "raised": exc,
                 "stale": ["provider"] * (self.idle_calls - idle0)}
         if exc is not None:
@@ -1192,6 +1230,7 @@ class C18(Prop):
         for line in case["lines"]:
             t = line.split()
             info = None
+            self.own, self.exc_salt = [], zlib.crc32(line.encode())
             if len(t) == 2 and t[0] == "sel":
                 st = slots[1 if t[1] == "1" else 0]
                 o = "ok"
